@@ -61,7 +61,7 @@ def compile_many(jobs, workers=16):
             pass
 
 
-def build_lib(outdir, name, cc, extra, incdir, prefix=None, rename_sections=False, link_seam=False):
+def build_lib(outdir, name, cc, extra, incdir, prefix=None, rename_sections=False, link_seam=False, sectag="w"):
     """Relocatable link of all library objects -> outdir/<name>.o"""
     od = os.path.join(outdir, name + ".objs")
     shutil.rmtree(od, ignore_errors=True)
@@ -117,16 +117,16 @@ def build_lib(outdir, name, cc, extra, incdir, prefix=None, rename_sections=Fals
         # instrumentation's own bookkeeping
         secs = run(["readelf", "-S", "-W", rel])
         args, seen = [], set()
-        keep = ("__sancov", ".init_array", ".fini_array", ".ctors", ".dtors", ".data.rel.ro", "h3wdata", "h3wbss")
+        keep = ("__sancov", ".init_array", ".fini_array", ".ctors", ".dtors", ".data.rel.ro", "h3wdata", "h3wbss", "h3rdata", "h3rbss")
         for m in re.finditer(r"^\s*\[\s*\d+\]\s+(\S+)\s+(PROGBITS|NOBITS)\s+\S+\s+\S+\s+\S+\s+\S+\s+(\S+)\s", secs, re.M):
             sec, typ, flags = m.group(1), m.group(2), m.group(3)
             if "W" not in flags or "A" not in flags or "T" in flags or sec.startswith(keep) or sec in seen:
                 continue
             seen.add(sec)
             if typ == "NOBITS":
-                args += ["--rename-section", sec + "=h3wbss,alloc"]
+                args += ["--rename-section", sec + "=h3%sbss,alloc" % sectag]
             else:
-                args += ["--rename-section", sec + "=h3wdata,alloc,load,data,contents"]
+                args += ["--rename-section", sec + "=h3%sdata,alloc,load,data,contents" % sectag]
         if args:
             run(["objcopy"] + args + [rel])
     return rel
@@ -178,7 +178,10 @@ def build(variant, outdir):
         simflags += ["-fprofile-instr-generate", "-fcoverage-mapping"]
     fence = not asan and not prof   # ASan registers globals by section; leave its layout alone
     lib_sim = build_lib(outdir, "libsim", cc, simflags, incdir, rename_sections=fence, link_seam=noprefix)
-    lib_ref = build_lib(outdir, "libref", cc, refflags, incdir, prefix="ref_")
+    # the reference copy's static storage is fenced as well (sections h3rdata/h3rbss): restored before every execution
+    # (a tree that keeps state across calls must not make the REFERENCE depend on history either) and write-protected
+    # by the C18 trap (a store there is a store to static storage in the default configuration of the library)
+    lib_ref = build_lib(outdir, "libref", cc, refflags, incdir, prefix="ref_", rename_sections=fence, sectag="r")
     # simulator objects (never instrumented with coverage guards)
     cxx = ["g++", "-std=c++17", "-O1", "-g", "-Wall", "-Wno-unused-function", "-I" + SIMDIR, "-I" + incdir]
     cxx += ["-DSIM_COV=1"]
@@ -203,24 +206,25 @@ def build(variant, outdir):
                     ["-c", os.path.join(SIMDIR, "api_table.cc"), "-o", o])
     pads = []
     if fence:
-        for nm in ("pad_before", "pad_after"):
-            src = os.path.join(od, nm + ".c")
-            with open(src, "w") as f:
-                f.write('__attribute__((section("h3wdata"), aligned(4096))) char h3w_%s_data[4096] = {1};\n' % nm)
-                # "aw",@nobits# : the trailing '#' comments out gcc's own flags, so the pad is NOBITS
-                # like the library's renamed .bss and the linker merges them into one output section
-                f.write('__attribute__((section("h3wbss,\\"aw\\",@nobits#"), aligned(4096))) char h3w_%s_bss[4096];\n' % nm)
-            o = os.path.join(od, nm + ".o")
-            pads.append(o)
-            jobs.append(["gcc", "-c"] + (["-fno-pic"] if cov else []) + [src, "-o", o])
+        for tag in ("w", "r"):
+            for nm in ("pad_before", "pad_after"):
+                src = os.path.join(od, "%s_%s.c" % (tag, nm))
+                with open(src, "w") as f:
+                    f.write('__attribute__((section("h3%sdata"), aligned(4096))) char h3%s_%s_data[4096] = {1};\n' % (tag, tag, nm))
+                    # "aw",@nobits# : the trailing '#' comments out gcc's own flags, so the pad is NOBITS
+                    # like the library's renamed .bss and the linker merges them into one output section
+                    f.write('__attribute__((section("h3%sbss,\\"aw\\",@nobits#"), aligned(4096))) char h3%s_%s_bss[4096];\n' % (tag, tag, nm))
+                o = os.path.join(od, "%s_%s.o" % (tag, nm))
+                pads.append(o)
+                jobs.append(["gcc", "-c"] + (["-fno-pic"] if cov else []) + [src, "-o", o])
     compile_many(jobs)
     exe = os.path.join(outdir, "simh3")
     link = ["g++", "-no-pie", "-o", exe] + objs
     if fence:
-        link += [pads[0], lib_sim, pads[1]]
+        link += [pads[0], lib_sim, pads[1], pads[2], lib_ref, pads[3]]
     else:
-        link += [lib_sim]
-    link += [lib_ref, "-lm", "-lpthread"]
+        link += [lib_sim, lib_ref]
+    link += ["-lm", "-lpthread"]
     if asan:
         link += ["-fsanitize=address,undefined"]
     if prof:
@@ -229,7 +233,7 @@ def build(variant, outdir):
     run(link)
     if fence:
         secs = run(["readelf", "-S", "-W", exe])
-        for name in ("h3wdata", "h3wbss"):
+        for name in ("h3wdata", "h3wbss", "h3rdata", "h3rbss"):
             if len(re.findall(r"\]\s+%s\s" % name, secs)) != 1:
                 raise BuildError("write-trap layout: expected exactly one output section %s\n%s" % (name, secs))
     with open(exe + ".syms", "w") as f:
